@@ -16,6 +16,7 @@
 #include <pthread.h>
 #include <sched.h>
 #include <time.h>
+#include <locale.h>
 #include <sys/types.h>
 #include <sys/wait.h>
 #include <eav.h>
@@ -157,6 +158,7 @@ int main(int argc, char **argv)
     long total = 0, mism = 0, overlap = 0, overlap_kinds[NKIND][NKIND];
     eav_t *e0;
     if (T > 64) T = 64;
+    setlocale(LC_ALL, "");      /* as the eav tool does: the environment chooses (C or C.UTF-8 in this image) */
     while ((r = getline(&line, &cap, stdin)) > 0 && npool < MAXPOOL) {
         size_t n; long at = -1; size_t j;
         if (line[r - 1] == '\n') line[r - 1] = 0;
